@@ -18,6 +18,7 @@ package validate
 // This must be done while keeping CI intact with all tests and test coverage
 
 import (
+	"encoding/json"
 	"reflect"
 	"strconv"
 	"strings"
@@ -258,8 +259,12 @@ func (h *paramHelper) resolveParam(path, method, operationID string, param *spec
 	isRef := param.Ref.String() != ""
 	if param.Schema != nil {
 		// the schema is expanded in place: work on a copy, so that the caller's document is left as it is
-		if clone, cloneErr := deepCloneSchema(*param.Schema); cloneErr == nil {
-			param.Schema = &clone
+		// (copied through JSON: a gob copy drops pointers to zero values such as "maximum": 0)
+		if raw, cloneErr := json.Marshal(param.Schema); cloneErr == nil {
+			clone := new(spec.Schema)
+			if cloneErr = json.Unmarshal(raw, clone); cloneErr == nil {
+				param.Schema = clone
+			}
 		}
 	}
 	if s.spec.SpecFilePath() == "" {
